@@ -50,48 +50,84 @@ def check_l1(ctx) -> None:
                 f'content is `{cv[:80]}`: not the list of all lines of the file in file order (a slice, filter, reorder or single-line read)')
     else:
         raise AnalysisError(f'read_input_file: `content = {cv[:80]}` is not one of the known whole-file idioms {ALL_LINES[:4]} (cannot decide)')
+    # ---- the per-line part is read on the canonical form of the function: `if T: continue` + rest == `if not T: rest`, so a guard-clause
+    # loop and its nested-if rewrite look the same
+    from gxstat.inline import canonical_function
+    cf = canonical_function(f.node)
+    cloops = [n for n in walk_no_nested(cf) if isinstance(n, ast.For) and norm(n.iter) == 'content']
+    ctx.require(len(cloops) == 1, 'read_input_file: loop over `content` not found (canonical form)')
+    loop = cloops[0]
     tv = norm(loop.target)
-    # line = raw.strip()
-    line_defs = [st for st in loop.body if isinstance(st, ast.Assign) and norm(st.targets[0]) == 'line']
-    ctx.check(len(line_defs) == 1 and norm(line_defs[0].value) == f'{tv}.strip()', 'L1', 'read_input_file/line-stripped',
+
+    def defs_of(name: str) -> List[ast.Assign]:
+        return [s_ for s_ in ast.walk(loop) if isinstance(s_, ast.Assign) and len(s_.targets) == 1 and norm(s_.targets[0]) == name]
+
+    # line = raw.strip(), first thing in the loop
+    line_defs = [st for st in loop.body if isinstance(st, ast.Assign) and norm(st.value) == f'{tv}.strip()' and isinstance(st.targets[0], ast.Name)]
+    ctx.check(len(line_defs) == 1 and line_defs[0] is loop.body[0], 'L1', 'read_input_file/line-stripped',
               f'{rel}:{loop.lineno}', 'the raw line is not stripped of surrounding whitespace / line ending before parsing')
-    # comment skip
+    LINE = line_defs[0].targets[0].id if line_defs else 'line'
+    # comment skip: the rest of the body runs under `not <line starts with a comment prefix>`
     skip = None
-    for st in loop.body:
-        if isinstance(st, ast.If) and any(isinstance(x, ast.Continue) for x in st.body):
+    for st in ast.walk(loop):
+        if isinstance(st, ast.If):
             lits = {c.value for c in ast.walk(st.test) if isinstance(c, ast.Constant) and isinstance(c.value, str)}
-            if lits & COMMENT_PREFIXES:
+            if lits & COMMENT_PREFIXES and f'{LINE}.startswith' in norm(st.test):
                 skip = (st, lits)
+                break
     ctx.require(skip is not None, 'read_input_file: comment-skip test not found')
     st, lits = skip
-    ctx.check(lits == COMMENT_PREFIXES and 'line.startswith' in norm(st.test) and
-              isinstance(st.body[-1], ast.Continue) and len([x for x in st.body if not isinstance(x, ast.Expr)]) == 1,
+    negated = isinstance(st.test, ast.UnaryOp) and isinstance(st.test.op, ast.Not)
+    # which branch carries the parsing: the one that contains the dictionary store
+    stores = [s_ for s_ in ast.walk(loop) if isinstance(s_, ast.Assign) and isinstance(s_.targets[0], ast.Subscript)
+              and norm(s_.targets[0].value) == f.args[0]]
+    ctx.require(len(stores) == 1, f'read_input_file: expected one store into the dictionary, found {len(stores)}')
+    s = stores[0]
+    in_body = any(x is s for b_ in st.body for x in ast.walk(b_))
+    in_else = any(x is s for b_ in st.orelse for x in ast.walk(b_))
+    skipped_branch = st.orelse if in_body else st.body
+    ctx.check(lits == COMMENT_PREFIXES and ((negated and in_body) or (not negated and in_else)) and
+              all(isinstance(x, (ast.Expr, ast.Pass, ast.Continue)) for x in skipped_branch),
               'L1', 'read_input_file/comment-prefixes', f'{rel}:{st.lineno}',
               f'comment lines skipped for prefixes {sorted(lits)}; documented set is {sorted(COMMENT_PREFIXES)}',
               fact=f'skip if line startswith any of {sorted(lits)}')
     # fields
-    want = {'elements': "line.split(',')", 'description': 'elements[0].strip()', 's_val': 'elements[1].strip()'}
-    for name, expr in want.items():
-        defs = [s for s in loop.body if isinstance(s, ast.Assign) and norm(s.targets[0]) == name]
-        ctx.check(len(defs) == 1 and norm(defs[0].value) == expr, 'L1', f'read_input_file/{name}', f'{rel}:{defs[0].lineno if defs else loop.lineno}',
-                  f'`{name}` is `{norm(defs[0].value) if defs else "?"}`, expected `{expr}` (name/value whitespace, trailing comment after 2nd comma)')
-    # store: unconditional, keyed by the name, last occurrence wins
-    stores = [s for s in ast.walk(loop) if isinstance(s, ast.Assign) and isinstance(s.targets[0], ast.Subscript)
-              and norm(s.targets[0].value) == f.args[0]]
-    ctx.require(len(stores) == 1, f'read_input_file: expected one store into the dictionary, found {len(stores)}')
-    s = stores[0]
-    g = guards_of(s, loop)
-    ctx.check(not g and norm(s.targets[0].slice) == 'description', 'L1', 'read_input_file/last-occurrence-wins', f'{rel}:{s.lineno}',
-              f'the dictionary store is guarded by `{norm(g[0][0]) if g else ""}` / keyed by `{norm(s.targets[0].slice)}`: '
-              f'a repeated parameter no longer takes its last occurrence')
-    entry = [x for x in loop.body if isinstance(x, ast.Assign) and norm(x.targets[0]) == norm(s.value)]
-    ctx.check(len(entry) == 1 and norm(entry[0].value).startswith('ParameterEntry(description, s_val,'), 'L1',
-              'read_input_file/entry-fields', f'{rel}:{s.lineno}', 'the stored entry is not built from (description, s_val, ...)')
-    # nothing between the skip and the store can drop a data line except the `< 2 elements` test
-    for x in loop.body:
-        if isinstance(x, ast.If) and x is not st and any(isinstance(y, (ast.Continue, ast.Break)) for y in ast.walk(x)):
-            ctx.check(norm(x.test) == 'len(elements) < 2', 'L1', f'read_input_file/skip:{norm(x.test)[:40]}', f'{rel}:{x.lineno}',
-                      f'lines are additionally skipped when `{norm(x.test)}`')
+    el_defs = [s_ for s_ in ast.walk(loop) if isinstance(s_, ast.Assign) and norm(s_.value) == f"{LINE}.split(',')" and isinstance(s_.targets[0], ast.Name)]
+    ctx.check(len(el_defs) == 1, 'L1', 'read_input_file/elements', f'{rel}:{el_defs[0].lineno if el_defs else loop.lineno}',
+              f'the line is not split into fields exactly once by `{LINE}.split(\',\')`')
+    EL = el_defs[0].targets[0].id if el_defs else 'elements'
+    # the stored entry: ParameterEntry(<name>, <value>, ...) keyed by <name>
+    from gxstat.inline import inline_sequential
+    key_e = norm(inline_sequential(s.targets[0].slice, s, keep=(EL,)))
+    ent = inline_sequential(s.value, s, keep=(EL,))
+    ok_ent = isinstance(ent, ast.Call) and dotted_name(ent.func) == 'ParameterEntry' and len(ent.args) >= 2
+    name_e = norm(ent.args[0]) if ok_ent else '?'
+    val_e = norm(ent.args[1]) if ok_ent else '?'
+    ctx.check(name_e == f'{EL}[0].strip()' and key_e == name_e, 'L1', 'read_input_file/description', f'{rel}:{s.lineno}',
+              f'`description` is `{name_e}` (key `{key_e}`), expected `{EL}[0].strip()` (name/value whitespace, trailing comment after 2nd comma)')
+    ctx.check(val_e == f'{EL}[1].strip()', 'L1', 'read_input_file/s_val', f'{rel}:{s.lineno}',
+              f'`s_val` is `{val_e}`, expected `{EL}[1].strip()` (name/value whitespace, trailing comment after 2nd comma)')
+    ctx.check(ok_ent, 'L1', 'read_input_file/entry-fields', f'{rel}:{s.lineno}', 'the stored entry is not built from (description, s_val, ...)')
+    # store: keyed by the name, last occurrence wins; the only conditions on the way to it are "not a comment" and "at least two fields"
+    enough = (f'len({EL}) >= 2', f'len({EL}) > 1', f'2 <= len({EL})', f'not len({EL}) < 2')
+    extra = []
+    for t, pol in guards_of(s, loop):
+        txt = norm(t)
+        if t is st.test:
+            continue
+        if (pol and txt in enough) or (not pol and txt == f'len({EL}) < 2'):
+            continue
+        extra.append(txt if pol else f'not ({txt})')
+    ctx.check(not extra, 'L1', 'read_input_file/last-occurrence-wins', f'{rel}:{s.lineno}',
+              f'the dictionary store is additionally guarded by {extra}: a repeated parameter no longer takes its last occurrence / data lines are dropped')
+    # nothing else in the loop can drop a data line
+    for x in ast.walk(loop):
+        if isinstance(x, (ast.Continue, ast.Break)):
+            g = [norm(t) for t, pol in guards_of(x, loop) if t is not st.test]
+            ok = isinstance(x, ast.Continue) and (not g or all(t in (f'len({EL}) < 2',) for t in g)) and \
+                (any(y is x for b_ in skipped_branch for y in ast.walk(b_)) or bool(g))
+            ctx.check(ok, 'L1', f'read_input_file/skip:{(g[-1] if g else "unconditional")[:40]}', f'{rel}:{x.lineno}',
+                      f'lines are additionally skipped when `{g[-1] if g else "always"}`')
 
 
 def _loop_kind(loop: ast.AST) -> str:
